@@ -404,11 +404,19 @@ def r9_5(ctx: Ctx, L: Loop, rule="R9.5"):
     ctx.extra["loop_body_paths"] = len(paths)
     ctx.floor(rule, len(paths), 4, "paths of the loop body")
     best = None
+    from ..cfg import canon_test, ctext
     for n in walk_no_nested(L.acc_if):
-        if isinstance(n, ast.If) and n is not L.acc_if and isinstance(n.test, ast.Compare):
-            c = flip_compare(n.test)
-            if c.startswith(L.e0 + " <"):
-                best = c.split(" ")[-1]
+        if isinstance(n, ast.If) and n is not L.acc_if:
+            t_ = n.test
+            while isinstance(t_, ast.UnaryOp) and isinstance(t_.op, ast.Not):
+                t_ = t_.operand
+            if isinstance(t_, ast.Compare) and len(t_.ops) == 1 and isinstance(t_.left, ast.Name) and isinstance(t_.comparators[0], ast.Name):
+                names_ = [t_.left.id, t_.comparators[0].id]
+                if L.e0 in names_ and names_[0] != names_[1]:
+                    other_ = [x for x in names_ if x != L.e0][0]
+                    # the held energy is never NaN (R9.6 rejects NaN proposals), so not (a >= b) and a < b agree here
+                    if canon_test(n.test)[0] == ctext("%s < %s" % (L.e0, other_))[0]:
+                        best = other_
     for i, p in enumerate(paths):
         resets = [s for s in p.stmts() if isinstance(s, ast.Assign) and norm(s.targets[0]) == L.counter]
         incs = [s for s in p.stmts() if isinstance(s, ast.AugAssign) and norm(s.target) == L.counter]
@@ -417,8 +425,11 @@ def r9_5(ctx: Ctx, L: Loop, rule="R9.5"):
         accepted = any(any(x is L.acc_call for x in ast.walk(t)) and o for t, o in p.conds())
         strict = None
         for t, o in p.conds():
-            if isinstance(t, ast.Compare) and best and flip_compare(t) == "%s < %s" % (L.e0, best):
-                strict = o
+            if best:
+                wt_, wp_ = ctext("%s < %s" % (L.e0, best))
+                ct_, cp_ = canon_test(t, o)
+                if ct_ == wt_:
+                    strict = (cp_ == wp_)
         min_upd = any(isinstance(s, ast.Assign) and norm(s.targets[0]) == best and norm(s.value) == L.e0 for s in p.stmts()) if best else False
         want_reset = bool(accepted and strict)
         ok = (good_reset and want_reset and min_upd) or (good_inc and not want_reset and not min_upd)
